@@ -322,6 +322,197 @@ theorem b64_roundtrip_salt (bs : Bytes) (h : bs.length = 16) : base64Decode (b64
 theorem b64_roundtrip_hash (bs : Bytes) (h : bs.length = 23) : base64Decode (b64Encode bs) = some bs :=
   b64_roundtrip_23 bs h
 
+/-! ## parser laxness (accepted malformed strings — none of them is a panic) -/
+
+/-- the cost field goes through `strconv.Atoi`, so a sign is accepted: "+4" … "+9" are costs 4 … 9 -/
+theorem parse_accepts_plus_cost (d : UInt8) (h1 : 52 ≤ d) (h2 : d ≤ 57) (rest : Bytes) :
+    decodeCost (43 :: d :: rest) = .ok (((d.toNat - 48 : Nat) : Int), 3) := by
+  unfold decodeCost
+  have s1 : slice (43 :: d :: rest) 0 2 = .ok [43, d] := by simp [slice]
+  have hd : isDigit d = true := by
+    simp only [isDigit, Bool.and_eq_true, decide_eq_true_eq]; exact ⟨by
+      have : (48 : UInt8) ≤ 52 := by decide
+      exact UInt8.le_trans this h1, h2⟩
+  have hd' : 48 ≤ d ∧ d ≤ 57 := by simpa [isDigit] using hd
+  have ha : atoi2 43 d = some ((d.toNat - 48 : Nat) : Int) := by
+    simp [atoi2, isDigit, hd']
+  simp only [bind, s1, idx, List.getElem?_cons_zero, List.getElem?_cons_succ, ha, checkCost]
+  have l1 : 52 ≤ d.toNat := UInt8.le_iff_toNat_le.mp h1
+  have l2 : d.toNat ≤ 57 := UInt8.le_iff_toNat_le.mp h2
+  have : ¬ (((d.toNat - 48 : Nat) : Int) < 4 ∨ ((d.toNat - 48 : Nat) : Int) > 31) := by omega
+  simp [this, pure]
+
+/-- a negative cost is syntactically accepted by Atoi and then rejected by the range check -/
+theorem parse_minus_cost_range (d : UInt8) (hd' : 48 ≤ d ∧ d ≤ 57) (rest : Bytes) :
+    decodeCost (45 :: d :: rest) = .err .costRange := by
+  unfold decodeCost
+  have s1 : slice (45 :: d :: rest) 0 2 = .ok [45, d] := by simp [slice]
+  have ha : atoi2 45 d = some (-((d.toNat - 48 : Nat) : Int)) := by
+    simp [atoi2, isDigit, hd']
+  simp only [bind, s1, idx, List.getElem?_cons_zero, List.getElem?_cons_succ, ha, checkCost]
+  have : (-((d.toNat - 48 : Nat) : Int) < 4 ∨ -((d.toNat - 48 : Nat) : Int) > 31) := by omega
+  simp [this]
+
+/-- the major version may be ANY byte ≤ '2' (NUL, '$', '0', '1', …), the minor any byte but '$' -/
+theorem parse_accepts_any_major_le_2 (maj min : UInt8) (rest : Bytes) (h : maj ≤ 50) (hm : min ≠ 36) :
+    decodeVersion (36 :: maj :: min :: rest) = .ok (maj, min, 4) := by
+  unfold decodeVersion
+  have : ¬ maj > 50 := UInt8.not_lt.mpr h
+  simp [bind, idx, this, hm, pure]
+
+/-- "$2$…" (no minor) is accepted too -/
+theorem parse_accepts_no_minor (maj : UInt8) (rest : Bytes) (h : maj ≤ 50) :
+    decodeVersion (36 :: maj :: 36 :: rest) = .ok (maj, 0, 3) := by
+  unfold decodeVersion
+  have : ¬ maj > 50 := UInt8.not_lt.mpr h
+  simp [bind, idx, this, pure]
+
+theorem decodeVersion_minor (a1 a2 z : UInt8) (rest : Bytes) (h2 : a2 ≠ 36) :
+    decodeVersion (36 :: a1 :: a2 :: z :: rest) = if a1 > 50 then .err .version else .ok (a1, a2, 4) := by
+  unfold decodeVersion
+  have : (a2 != 36) = true := by simpa using h2
+  simp only [bind, idx, List.getElem?_cons_zero, List.getElem?_cons_succ,
+    show ((36 : UInt8) != 36) = false by decide, Bool.false_eq_true, if_false, this, if_true, pure]
+
+/-- the byte after the minor version (where '$' belongs) is never looked at -/
+theorem parse_ignores_byte_after_minor (a1 a2 x y : UInt8) (rest : Bytes) (h2 : a2 ≠ 36) :
+    newFromHash (36 :: a1 :: a2 :: x :: rest) = newFromHash (36 :: a1 :: a2 :: y :: rest) := by
+  unfold newFromHash
+  rw [decodeVersion_minor a1 a2 x rest h2, decodeVersion_minor a1 a2 y rest h2]
+  simp only [List.length_cons]
+  by_cases hl : rest.length + 1 + 1 + 1 + 1 < 59
+  · simp [hl]
+  · by_cases hv : a1 > 50
+    · simp [hl, hv, bind]
+    · simp only [hl, hv, if_false, bind, sliceFrom, List.length_cons]
+      simp
+
+theorem decodeCost_cons (c0 c1 : UInt8) (rest : Bytes) :
+    decodeCost (c0 :: c1 :: rest) = (match atoi2 c0 c1 with
+      | none => .err .costSyntax
+      | some c => if c < 4 ∨ c > 31 then .err .costRange else .ok (c, 3)) := by
+  unfold decodeCost
+  have s1 : slice (c0 :: c1 :: rest) 0 2 = .ok [c0, c1] := by simp [slice]
+  simp only [bind, s1, idx, List.getElem?_cons_zero, List.getElem?_cons_succ]
+  cases atoi2 c0 c1 with
+  | none => rfl
+  | some c =>
+    simp only [checkCost]
+    by_cases hc : c < 4 ∨ c > 31 <;> simp [hc, pure]
+
+/-- the byte after the two cost characters (where '$' belongs) is never looked at -/
+theorem parse_ignores_byte_after_cost (a1 a2 c0 c1 x y : UInt8) (rest : Bytes) (h2 : a2 ≠ 36) :
+    newFromHash (36 :: a1 :: a2 :: 36 :: c0 :: c1 :: x :: rest) = newFromHash (36 :: a1 :: a2 :: 36 :: c0 :: c1 :: y :: rest) := by
+  unfold newFromHash
+  rw [decodeVersion_minor a1 a2 36 _ h2, decodeVersion_minor a1 a2 36 _ h2]
+  simp only [List.length_cons]
+  by_cases hl : rest.length + 1 + 1 + 1 + 1 + 1 + 1 + 1 < 59
+  · simp [hl]
+  · by_cases hv : a1 > 50
+    · simp [hl, hv, bind]
+    · simp only [hl, hv, if_false, bind, sliceFrom, List.length_cons]
+      simp only [show 4 ≤ rest.length + 1 + 1 + 1 + 1 + 1 + 1 + 1 by omega, if_true, List.drop_succ_cons, List.drop_zero,
+        decodeCost_cons]
+      cases atoi2 c0 c1 with
+      | none => rfl
+      | some c =>
+        by_cases hc : c < 4 ∨ c > 31
+        · simp [hc]
+        · simp [hc]
+
+/-- everything after the 31st hash character is ignored by `Hash()`, hence by Compare:
+    a valid 60-byte hash with arbitrary bytes appended still verifies -/
+theorem hashString_ignores_tail (p : Hashed) (x : Bytes) (h : 31 ≤ p.hash.length) :
+    hashString { p with hash := p.hash ++ x } = hashString p := by
+  unfold hashString pad
+  simp only
+  congr 1
+  rw [List.append_assoc, List.take_append_of_le_length (by omega), List.take_append_of_le_length (by omega)]
+
+theorem idx_append (l x : Bytes) (i : Nat) (h : i < l.length) : idx (l ++ x) i = idx l i := by
+  simp [idx, List.getElem?_append_left h]
+
+theorem decodeVersion_append (l x : Bytes) (h : 3 ≤ l.length) : decodeVersion (l ++ x) = decodeVersion l := by
+  unfold decodeVersion
+  rw [idx_append l x 0 (by omega), idx_append l x 1 (by omega), idx_append l x 2 (by omega)]
+
+theorem decodeCost_append (l x : Bytes) (h : 2 ≤ l.length) : decodeCost (l ++ x) = decodeCost l := by
+  match l, h with
+  | c0 :: c1 :: r, _ => simp only [List.cons_append, decodeCost_cons]
+
+/-- appending bytes to an accepted hash string only extends the parsed hash part … -/
+theorem newFromHash_append (h x : Bytes) (p : Hashed) (hp : newFromHash h = .ok p) :
+    newFromHash (h ++ x) = .ok { p with hash := p.hash ++ x } := by
+  unfold newFromHash at hp ⊢
+  by_cases hl : h.length < 59
+  · simp [hl] at hp
+  · have hl' : ¬ (h ++ x).length < 59 := by simp; omega
+    simp only [hl, hl', if_false, bind] at hp ⊢
+    rw [decodeVersion_append h x (by omega)]
+    obtain ⟨v1, v2⟩ := decodeVersion_spec h (by omega)
+    cases hv : decodeVersion h with
+    | panic => exact absurd hv v1
+    | err e => simp [hv] at hp
+    | ok v =>
+      obtain ⟨maj, min, n⟩ := v
+      have hn := v2 _ hv
+      simp only at hn
+      simp only [hv] at hp ⊢
+      have e1 : sliceFrom h n = .ok (h.drop n) := by simp [sliceFrom]; omega
+      have e1' : sliceFrom (h ++ x) n = .ok (h.drop n ++ x) := by
+        simp only [sliceFrom, List.length_append]
+        rw [if_pos (by omega), List.drop_append_of_le_length (by omega)]
+      rw [e1] at hp; rw [e1']
+      simp only at hp ⊢
+      have l1 : 55 ≤ (h.drop n).length := by simp; omega
+      rw [decodeCost_append _ x (by omega)]
+      obtain ⟨c1, c2⟩ := decodeCost_spec (h.drop n) (by omega)
+      cases hc : decodeCost (h.drop n) with
+      | panic => exact absurd hc c1
+      | err e => simp [hc] at hp
+      | ok w =>
+        obtain ⟨cost, m⟩ := w
+        have hm := (c2 _ hc).1
+        simp only at hm
+        subst hm
+        simp only [hc] at hp ⊢
+        have e2 : sliceFrom (h.drop n) 3 = .ok ((h.drop n).drop 3) := by simp [sliceFrom]; omega
+        have e2' : sliceFrom (h.drop n ++ x) 3 = .ok ((h.drop n).drop 3 ++ x) := by
+          simp only [sliceFrom, List.length_append]
+          rw [if_pos (by omega), List.drop_append_of_le_length (by omega)]
+        rw [e2] at hp; rw [e2']
+        simp only at hp ⊢
+        have l2 : 52 ≤ ((h.drop n).drop 3).length := by simp; omega
+        generalize (h.drop n).drop 3 = t at hp l2 ⊢
+        have e3 : slice t 0 22 = .ok (t.take 22) := by simp [slice]; omega
+        have e3' : slice (t ++ x) 0 22 = .ok (t.take 22) := by
+          simp only [slice, List.length_append]
+          rw [if_pos (by omega), List.take_append_of_le_length (by omega)]; rfl
+        have e4 : sliceFrom t 22 = .ok (t.drop 22) := by simp [sliceFrom]; omega
+        have e4' : sliceFrom (t ++ x) 22 = .ok (t.drop 22 ++ x) := by
+          simp only [sliceFrom, List.length_append]
+          rw [if_pos (by omega), List.drop_append_of_le_length (by omega)]
+        rw [e3, e4] at hp; rw [e3', e4']
+        simp only [pure] at hp ⊢
+        injection hp with hp
+        subst hp
+        rfl
+
+/-- … and `Hash()` only looks at its first 31 bytes, so CompareHashAndPassword ignores everything after
+    a complete hash: a valid hash string with arbitrary bytes appended verifies exactly as before -/
+theorem compare_ignores_trailing (h x pw : Bytes) (p : Hashed) (hp : newFromHash h = .ok p)
+    (hlen : 31 ≤ p.hash.length) : compare (h ++ x) pw = compare h pw := by
+  unfold compare
+  rw [newFromHash_append h x p hp, hp]
+  simp only [bind]
+  cases bcrypt pw p.cost.toNat p.salt with
+  | panic => rfl
+  | err e => rfl
+  | ok other =>
+    simp only
+    rw [hashString_ignores_tail p x hlen]
+
+
 /-- the full statement of the property (the "only if" direction is collision resistance of bcrypt and
     is not provable): Compare succeeds for a candidate iff the key schedule sees the same 72 bytes -/
 def C17_full : Prop :=
